@@ -138,7 +138,12 @@ class SimSolver:
                 rec["peer_values"] = {}
             self._fire("budget")
             return out
-        out = self._orig(prob, *args, **kwargs)
+        try:
+            out = self._orig(prob, *args, **kwargs)
+        except Exception as e:
+            rec["status"] = "raised"         # the real peer raised (e.g. a MIP sent to an LP-only back-end)
+            rec["raised"] = type(e).__name__
+            raise
         # what the peer itself answered, before EAO touches it (variable values right after the solve)
         try:
             rec["peer_values"] = {id(v): (None if v.value is None else np.array(v.value, dtype=float).copy()) for v in prob.variables()}
@@ -167,21 +172,36 @@ class SimSolver:
 
 
 class _SimFile:
+    """File object of SimDisk with a position, so that 'w', 'a', 'x', 'r' and 'r+' (+ truncate) behave as on a real
+    file system.  Faults: ('enospc'|'crash', k) after k written characters, ('eio_close',), ('eio_read',), ('short_read', k)."""
+
     def __init__(self, disk, path, mode, fault):
         self.disk, self.path, self.mode, self.fault = disk, path, mode, fault
         self.closed = False
         self.n = 0
+        self.writes = any(c in mode for c in "wax+")
         if "w" in mode:
             disk.files[path] = ""          # O_TRUNC is immediate
             disk.acked.pop(path, None)
+            self.pos = 0
         elif "a" in mode or "x" in mode:
             if "x" in mode and path in disk.files:
                 raise FileExistsError(errno.EEXIST, "File exists (SimDisk)", path)
             disk.files.setdefault(path, "")   # append keeps what is there
             disk.acked.pop(path, None)
-        elif "r" in mode:
+            self.pos = len(disk.files[path])
+        else:
             if path not in disk.files:
                 raise FileNotFoundError(errno.ENOENT, "No such file (SimDisk)", path)
+            self.pos = 0
+            if "+" in mode:
+                disk.acked.pop(path, None)   # opened for update: what is there is no longer an acknowledged save
+
+    def _put(self, s):
+        cur = self.disk.files[self.path]
+        self.disk.files[self.path] = cur[:self.pos] + s + cur[self.pos + len(s):]
+        self.pos += len(s)
+        self.n += len(s)
 
     # -- writing
     def write(self, s):
@@ -189,30 +209,40 @@ class _SimFile:
         if f and f[0] in ("enospc", "crash"):
             room = f[1] - self.n
             if len(s) > room:
-                part = s[:max(room, 0)]
-                self.disk.files[self.path] += part
-                self.n += len(part)
+                self._put(s[:max(room, 0)])
                 self.disk._fire(f[0])
                 if f[0] == "enospc":
                     raise OSError(errno.ENOSPC, "No space left on device (SimDisk)")
-                raise SimCrash("crash while writing %s at byte %d" % (self.path, self.n))
-        self.disk.files[self.path] += s
-        self.n += len(s)
+                raise SimCrash("crash while writing %s at character %d" % (self.path, self.n))
+        self._put(s)
         return len(s)
 
     def flush(self):
         pass
 
+    def truncate(self, size=None):
+        size = self.pos if size is None else size
+        self.disk.files[self.path] = self.disk.files[self.path][:size]
+        return size
+
+    def seek(self, pos, whence=0):
+        self.pos = pos if whence == 0 else (self.pos + pos if whence == 1 else len(self.disk.files[self.path]) + pos)
+        return self.pos
+
+    def tell(self):
+        return self.pos
+
     # -- reading
     def read(self, *a):
         f = self.fault
-        data = self.disk.files[self.path]
+        data = self.disk.files[self.path][self.pos:]
         if f and f[0] == "eio_read":
             self.disk._fire("eio_read")
             raise OSError(errno.EIO, "Input/output error (SimDisk)")
         if f and f[0] == "short_read":
             self.disk._fire("short_read")
-            return data[:f[1]]
+            data = data[:f[1]]
+        self.pos += len(data)
         return data
 
     def close(self):
@@ -220,7 +250,7 @@ class _SimFile:
             return
         self.closed = True
         f = self.fault
-        if "w" in self.mode or "a" in self.mode or "x" in self.mode:
+        if self.writes:
             if f and f[0] == "eio_close":
                 self.disk._fire("eio_close")
                 raise OSError(errno.EIO, "Input/output error on close (SimDisk)")
@@ -259,7 +289,7 @@ class SimDisk:
     def open(self, path, mode="r", *a, **k):
         self.opens += 1
         fault = None
-        want = "write" if ("w" in mode or "a" in mode or "x" in mode) else "read"
+        want = "write" if any(c in mode for c in "wax+") else "read"
         for i, f in enumerate(self._faults):
             if f[0] == want:
                 fault = tuple(f[1:]) if not isinstance(f[1], (list, tuple)) else tuple(f[1])
@@ -276,12 +306,20 @@ class SimDisk:
         consumed by the next matching open; kind: 'enospc@k', 'crash@k', 'eio_close', 'eio_read', 'short_read@k'."""
         import eaopack.serialization as ser
         self._faults = [tuple(f) for f in (faults or [])]
+        import os.path as osp
         had = "open" in ser.__dict__
         old = ser.__dict__.get("open")
         ser.open = self.open
+        # code that asks the file system about a path first (isfile / exists) must see the simulated files too
+        real = {k: getattr(osp, k) for k in ("isfile", "exists")}
+        disk = self
+        for k_, fn_ in real.items():
+            setattr(osp, k_, (lambda fn: (lambda p: True if str(p) in disk.files else fn(p)))(fn_))
         try:
             yield self
         finally:
+            for k_, fn_ in real.items():
+                setattr(osp, k_, fn_)
             if had:
                 ser.open = old
             else:
